@@ -128,9 +128,14 @@ MCXFormats == {
   <<FieldTok("$upstream_addr"), Sp, FieldTok("$upstream_host"), Sp, FieldTok("$upstream_port"), Sp, FieldTok("$upstream_service"), Sp, FieldTok("$upstream_request_url")>>,
   <<FieldTok("$remote_addr"), Sp, FieldTok("$remote_host"), Sp, FieldTok("$remote_port")>>,
   <<FieldTok("$request"), Sp, FieldTok("$request_url"), Sp, FieldTok("$request_args"), Sp, FieldTok("$request_scheme")>>,
-  <<Tok("header", "$header.User-Agent", "-", "User-Agent"), Sp, Tok("header", "$header.x-verif", "-", "X-Verif"), Sp, Tok("header", "$header.X-Missing", "-", "X-Missing")>> }
+  <<Tok("header", "$header.User-Agent", "-", "User-Agent"), Sp, Tok("header", "$header.x-verif", "-", "X-Verif"), Sp, Tok("header", "$header.X-Missing", "-", "X-Missing")>>,
+  <<Tok("header", "$header.X-Request-ID", "-", "X-Request-Id"), Sp, Tok("header", "$header.x-request-id", "-", "X-Request-Id")>> }
 
-R(method, expect, rest, query, host, v6) == [method |-> method, expect |-> expect, rest |-> rest, query |-> query, host |-> host, v6 |-> v6]
+R(method, expect, rest, query, host, v6) == [method |-> method, expect |-> expect, rest |-> rest, query |-> query, host |-> host, v6 |-> v6,
+                                             fwdhdr |-> "none", ridcfg |-> "", ridclient |-> ""]
+\* the same request with a forwarded-scheme header, a configured request id header, an id of the client's own
+With(r, fwdhdr, ridcfg, ridclient) == [r EXCEPT !.fwdhdr = fwdhdr, !.ridcfg = ridcfg, !.ridclient = ridclient]
+FabioID == "f47ac10b-58cc-0372-8567-0e02b2c3d479"
 MCReqs == { R("GET", FALSE, "x", "", "front.example", FALSE),
             R("GET", FALSE, "a/b", "q=1&r=%20z", "front.example:8080", TRUE),
             R("HEAD", FALSE, "x", "h=1", "front.example", FALSE),
@@ -148,10 +153,12 @@ MCTargets == { [a |-> A("hp", "backend", "8080"), prefix |-> "/t1/", svc |-> "sv
                \* the route of /t3/ carries the option host=dst: the upstream gets the target's Host header;
                \* what the client sent stays what it sent
                [a |-> A("hp", "backend", "8080"), prefix |-> "/t3/", svc |-> "svc-t3"] }
+HistReq0 == R("GET", FALSE, "x", "", "front.example", FALSE)
 Client(v6) == IF v6 THEN A("v6p", "::1", "CPORT") ELSE A("hp", "127.0.0.1", "CPORT")
 ReqHdr == << H("User-Agent", "verif/1.0"), H("X-Verif", "v w") >>
 X(kind, r, info, status, framing, chunks, tg) ==
-    [id |-> ToString(<<kind, r.method, r.expect, r.rest, info, status, framing, chunks, tg.prefix>>),
+    [id |-> ToString(<<kind, r.method, r.expect, r.rest, info, status, framing, chunks, tg.prefix, r.fwdhdr, r.ridcfg, r.ridclient>>),
+     fwdhdr |-> r.fwdhdr, ridcfg |-> r.ridcfg, ridclient |-> r.ridclient, ridcanon |-> "X-Request-Id", fabioid |-> FabioID,
      kind |-> kind, method |-> r.method, expect |-> r.expect, path |-> tg.prefix \o r.rest, query |-> r.query, host |-> r.host,
      info |-> info, status |-> status, framing |-> framing, chunks |-> chunks,
      raddr |-> Client(r.v6), target |-> tg.a, svc |-> tg.svc, hdr |-> ReqHdr]
@@ -163,6 +170,18 @@ Local(reqs) == {X("refused", r, <<>>, 502, "length", <<>>, Down) : r \in reqs}
           \cup {X("timeout", r, <<>>, 504, "length", <<>>, Slow) : r \in {q \in reqs : ~q.expect}}
           \cup {X("noroute", r, <<>>, 404, "length", <<>>, NoRt) : r \in reqs}
           \cup {X("redirect", r, <<>>, 301, "length", <<>>, Redir) : r \in reqs}
+\* documented options and request headers that decide what is logged: the forwarded-scheme headers,
+\* proxy.header.requestid in three spellings with and without an id of the client's own; the client
+\* that hangs up before the upstream answers
+T1 == CHOOSE tg \in MCTargets : tg.prefix = "/t1/"
+MCOptionExchanges ==
+     {X("proxied", With(HistReq0, f, rid, cid), <<>>, 200, "length", <<1>>, T1) :
+          f \in {"none", "xfp", "fwd"}, rid \in {"", "X-Request-Id", "X-Request-ID", "x-request-id"}, cid \in {"", "client-chosen-id"}}
+     \cup {X(k.kind, With(HistReq0, f, "X-Request-ID", ""), <<>>, k.status, "length", <<>>, k.tg) :
+          f \in {"xfp", "fwd"}, k \in {[kind |-> "noroute", status |-> 404, tg |-> NoRt], [kind |-> "redirect", status |-> 301, tg |-> Redir],
+                                        [kind |-> "refused", status |-> 502, tg |-> Down]}}
+     \cup {X("aborted", With(r, "none", rid, ""), <<>>, 499, "length", <<>>, T1) :
+          r \in {HistReq0, R("POST", FALSE, "post", "", "front.example", FALSE)}, rid \in {"", "X-Request-ID"}}
 MCExchanges == {X("proxied", r, i, s, f, c, tg) : r \in MCReqs, i \in MCInfos, s \in MCStatuses, f \in {"length", "chunked"},
                                                      c \in MCChunks, tg \in MCTargets} \cup Local(MCReqs)
 MCExchangesQuick == {X("proxied", r, i, s, "chunked", c, tg) : r \in MCReqsQuick, i \in MCInfosQuick, s \in MCStatusesQuick,
@@ -176,6 +195,7 @@ MCNoFormats == {}
 XJson(x) == [id |-> x.id, kind |-> x.kind, method |-> x.method, expect |-> x.expect, path |-> x.path, query |-> x.query,
              host |-> x.host, info |-> x.info, status |-> x.status, framing |-> x.framing, chunks |-> x.chunks,
              raddr |-> AddrStr(x.raddr), target |-> AddrStr(x.target), svc |-> x.svc, hdr |-> x.hdr,
+             fwdhdr |-> x.fwdhdr, ridcfg |-> x.ridcfg, ridclient |-> x.ridclient, fabioid |-> x.fabioid,
              cstatus |-> ClientView(x).status,
              cbytes |-> IF x.kind = "redirect" THEN -1 ELSE ClientView(x).bytes]   \* -1: the body of a redirect is net/http's, not prescribed
 XGenServe(x) == /\ Serve(x)
@@ -192,8 +212,8 @@ MCHistExchanges == { X("proxied", HistReq, <<>>, 200, "length", <<5000>>, tg) : 
               \cup { X("proxied", HistReq, <<103>>, 404, "chunked", <<1>>, CHOOSE tg \in MCTargets : tg.prefix = "/t2/") }
               \cup { X("refused", HistReq, <<>>, 502, "length", <<>>, Down), X("noroute", HistReq, <<>>, 404, "length", <<>>, NoRt),
                      X("redirect", HistReq, <<>>, 301, "length", <<>>, Redir) }
-MCExchangesQuickH == MCExchangesQuick \cup MCHistExchanges
-MCExchangesH == MCExchanges \cup MCHistExchanges
+MCExchangesQuickH == MCExchangesQuick \cup MCHistExchanges \cup MCOptionExchanges
+MCExchangesH == MCExchanges \cup MCHistExchanges \cup MCOptionExchanges
 StatusOnly == <<FieldTok("$response_status")>>
 XHistInit == Init /\ fmt = StatusOnly
 XHistNext == \/ Parse
